@@ -209,16 +209,36 @@ def override (E : Ext) (L : Variant) (cfg : Cfg) (st : St) (u : Upd) (vvArg : Li
         | .ok _ => ⟨⟨p, v⟩, none, []⟩
         | .error e => overrideHandler E L cfg p v e
 
+/-- `Service.configure_char(name, properties, valid_values, value)` (pyhap/service.py), statement
+    by statement: `if properties or valid_values: char.override_properties(...)`, then
+    `if value: char.set_value(value, should_notify=False)`.  An exception of the override
+    propagates before the value is looked at; an exception of `set_value` propagates with the
+    override already done.  (The callback arguments of `configure_char` are not modelled.) -/
+def configurePre (E : Ext) (L : Variant) (cfg : Cfg) (st : St) (u : Upd) (vvArg : List Int) : Res :=
+  if !u.isEmpty || !vvArg.isEmpty then override E L cfg st u vvArg else ⟨st, none, []⟩
+
+def configure (E : Ext) (L : Variant) (cfg : Cfg) (st : St) (u : Upd) (vvArg : List Int) (v : Val) : Res :=
+  let r1 := configurePre E L cfg st u vvArg
+  match r1.exn with
+  | some _ => r1
+  | none =>
+    if v.truthy then
+      let r2 := setValue E L cfg r1.st v false
+      ⟨r2.st, r2.exn, r1.out ++ r2.out⟩
+    else r1
+
 inductive Op where
   | set (v : Val) (shouldNotify : Bool)
   | client (v : Val)
   | override (u : Upd) (vvArg : List Int)
+  | configure (u : Upd) (vvArg : List Int) (v : Val)
   deriving DecidableEq, Repr
 
 def step (E : Ext) (L : Variant) (cfg : Cfg) (st : St) : Op → Res
   | .set v n => setValue E L cfg st v n
   | .client v => clientUpdate E L cfg st v
   | .override u vv => override E L cfg st u vv
+  | .configure u vv v => configure E L cfg st u vv v
 
 /-- state after a sequence of operations -/
 def runSt (E : Ext) (L : Variant) (cfg : Cfg) : St → List Op → St
@@ -310,10 +330,11 @@ instance AllConsistent.dec (E : Ext) (L : Variant) (cfg : Cfg) :
     have := AllConsistent.dec E L cfg (step E L cfg st op).st ops
     inferInstanceAs (Decidable (consistent st.props = true ∧ _))
 
-/-- no override in the history (the property set stays the declared one) -/
+/-- no override / configure in the history (the property set stays the declared one) -/
 def noOverride : List Op → Bool
   | [] => true
   | .override _ _ :: _ => false
+  | .configure _ _ _ :: _ => false
   | _ :: ops => noOverride ops
 
 end Hap.Char
